@@ -13,8 +13,9 @@
 namespace Ctx
 
 /-- exception kinds: `ContextError`, a machine-initialisation fault, a machine-teardown fault,
-    an exception raised by a request body, a `pytest.skip()`; `fuel` never occurs for well-formed
-    dependency graphs (theorem `C14.no_fuel`). -/
+    an exception raised by a request body, a `pytest.skip()`; `fuel` marks an exhausted recursion
+    level: level `cfg.n` suffices for classes `< cfg.n` of an acyclic graph (the proofs of
+    Props/CtxLeak*.lean and Props/CtxTrace5.lean work on exactly that level). -/
 inductive Kind where
   | ctx | fi | fd | body | skip | fuel
 deriving DecidableEq, Repr, Inhabited
